@@ -39,6 +39,13 @@ DEFAULT_LITS = ('attr_dict', '_parameter', 'observed', 'name', '_class', 'output
 _SORTS = {}
 
 
+class KwMark(str):
+    """the single keyword under which `f(**d)` passes a dict d whose key set is symbolic (python needs str keys)"""
+
+
+KW = KwMark('__vc_kwargs__')
+
+
 class NetworkXError(Exception):
     """stands for networkx.NetworkXError raised by the library on behalf of the analysed code"""
 
@@ -108,6 +115,8 @@ class Theory:
 
     def key(self, k):
         """python dict key -> Key term"""
+        if isinstance(k, KwMark):
+            raise OutOfSubset('the **-unpacking marker used as a dict key')
         if isinstance(k, str):
             return self.klit(k)
         if isinstance(k, SNodeName):
@@ -161,6 +170,14 @@ class Theory:
 
     def forall_strs(self, body, k=1, name='s'):
         return self._q('A', [(self.Str, self.str_u)] * k, body, name)
+
+    def truth(self, v):
+        """bool(v) of a dict-slot value: python bools and None as in python, other objects through the uninterpreted `truthy`"""
+        tr = self.__dict__.get('_truthy')
+        if tr is None:
+            tr = self.__dict__['_truthy'] = z3.Function('truthy' + str(self.Val), self.Val, BoolS)
+        V = self.Val
+        return z3.If(V.is_vbool(v), V.bool_of(v), z3.If(v == V.vnone, z3.BoolVal(False), tr(v)))
 
     def name_order_axioms(self):
         """`lt` is a strict total order on names (python str comparison)"""
@@ -305,6 +322,13 @@ class SVal(Sym):
     def pop(self, *a): return self._d('pop').pop(*a)
     def get(self, *a): return self._d('get').get(*a)
     def copy(self): return self._d('copy').copy()
+    def keys(self): return self._d('keys').keys()
+    def items(self): return self._d('items').items()
+    def update(self, *a, **k): return self._d('update').update(*a, **k)
+    def __delitem__(self, k): self._d('del').__delitem__(k)
+
+    def __bool__(self):
+        return cur().branch(self.heap.th.truth(self.t))
 
     def _vc_is(self, other):
         if isinstance(other, SVal):
@@ -354,8 +378,13 @@ class SDict(Sym):
         return bool(SBool(self.has(k)))
 
     def __getitem__(self, k):
+        if isinstance(k, KwMark):       # f(**d): the callee receives d itself under the marker keyword
+            return self
         _need('call-pre[dict key present: %s]' % _kname(k), self.has(k))
         return SVal(self.heap, self.value(k))
+
+    def items(self):
+        return _NodeKeyItems(self)
 
     def __setitem__(self, k, v):
         self.heap.write(self.ref, self._k(k), self.heap.to_val(v))
@@ -379,6 +408,20 @@ class SDict(Sym):
 
     def copy(self):
         return self.heap.copy_dict(self.ref)
+
+    def keys(self):
+        return _DictKeys(self)
+
+    def update(self, other=(), **kw):
+        """d.update(m) for a python mapping / pair list with literal keys"""
+        if isinstance(other, Sym):
+            raise OutOfSubset('dict.update(%s)' % type(other).__name__)
+        for k, v in list(dict(other).items()) + list(kw.items()):
+            self[k] = v
+
+    def __delitem__(self, k):
+        _need('call-pre[del dict[key]: key present: %s]' % _kname(k), self.has(k))
+        self.heap.delete(self.ref, self._k(k))
 
     def _vc_is(self, other):
         if isinstance(other, SDict):
@@ -404,6 +447,44 @@ class SDict(Sym):
 
     def __repr__(self):
         return 'SDict(%s)' % z3.simplify(self.ref)
+
+
+class _DictKeys:
+    """d.keys(): only the superset test `d.keys() >= {literal keys}` is modelled"""
+
+    def __init__(self, d):
+        self.d = d
+
+    def __ge__(self, other):
+        if not isinstance(other, (set, frozenset)) or not all(isinstance(k, str) for k in other):
+            raise OutOfSubset('dict.keys() >= %r' % (other,))
+        return SBool(z3.And([self.d.has(k) for k in sorted(other)]))
+
+    def _no(self, *a):
+        raise OutOfSubset('operation on dict.keys() other than `>= {literals}`')
+
+    def __iter__(self):                 # only what `f(**d)` needs: one marker keyword (see KwMark)
+        return iter([KW])
+
+    __gt__ = __le__ = __lt__ = __eq__ = __ne__ = __contains__ = __len__ = _no
+    __hash__ = None
+
+
+class _NodeKeyItems:
+    """d.items() of a dict keyed by NODE NAMES (obliged: it holds no literal key): iterable through a loop contract (visited set of names)"""
+
+    def __init__(self, d):
+        self.d = d
+
+    def _vc_iter(self):
+        from .engine import SetIter
+        d, th = self.d, self.d.heap.th
+        _need('call-pre[dict.items(): the dict is keyed by node names only]',
+              th.forall_keys(lambda k: z3.Implies(th.Key.is_klit(k), z3.Not(d.heap.has(d.ref, k)))))
+        return SetIter(th.Node, lambda q: d.heap.has(d.ref, th.knode(q)), lambda q: (SNodeName(q), SVal(d.heap, d.heap.val(d.ref, th.knode(q)))))
+
+    def __iter__(self):
+        raise OutOfSubset('iteration over the items of a symbolic dict needs a loop contract')
 
 
 def _need(kind, fact):
@@ -483,6 +564,10 @@ def _name_t(o):
         return o.t
     if isinstance(o, z3.ExprRef):
         return o
+    if isinstance(o, str) and not isinstance(o, KwMark):
+        f = getattr(theory(), 'node_lit', None)      # a contract may interpret literal node names (distinct constants of sort Node)
+        if f is not None:
+            return f(o)
     raise OutOfSubset('expected a node name, got %r' % (o,))
 
 
@@ -559,6 +644,10 @@ def to_param(x):
         return th.Param.ppos(x.t)
     if isinstance(x, z3.ExprRef) and x.sort() == th.Str:
         return th.Param.pname(x)
+    if isinstance(x, str) and not isinstance(x, KwMark):
+        f = getattr(th, 'str_lit', None)             # a contract may interpret literal parameter names (distinct constants of sort Str)
+        if f is not None:
+            return th.Param.pname(f(x))
     raise OutOfSubset('edge param %r' % (x,))
 
 
@@ -963,6 +1052,17 @@ class SDiGraph(Sym):
 
     def add_node(self, n, **attr):
         n = _name_t(n)
+        if any(isinstance(k, KwMark) for k in attr):
+            # add_node(n, **d) with a heap dict d: a NEW node gets a new data dict with the (key, value) pairs of d
+            if len(attr) != 1 or not isinstance(attr[KW], SDict):
+                raise OutOfSubset('add_node(**symbolic dict) mixed with explicit attributes')
+            if cur().branch(self.node(n)):
+                raise OutOfSubset('add_node(existing node, **symbolic dict)')
+            d = self.heap.copy_dict(attr[KW].ref, name='nodedata')
+            node, nattr = self.node, self.nattr
+            self.node = lambda x: z3.Or(x == n, node(x))
+            self.nattr = lambda x: z3.If(x == n, d.ref, nattr(x))
+            return
         if cur().branch(self.node(n)):
             d = SDict(self.heap, self.nattr(n))          # existing node: its data dict is updated
             for k, v in attr.items():
@@ -1017,6 +1117,8 @@ class SDiGraph(Sym):
         self.param = lambda a, b: z3.If(z3.And(a == u, b == v), p, param(a, b))
 
     def add_edges_from(self, ebunch):
+        if isinstance(ebunch, EdgeView):
+            ebunch = ebunch._vc_list()
         if isinstance(ebunch, EdgeSnap):
             S = ebunch
             self._add_node_set(lambda x: self.th.exists_nodes(lambda y: z3.Or(S.mem(x, y), S.mem(y, x))))
